@@ -31,7 +31,7 @@ var pureFunSpecs = []pfSpec{
 		errs: map[string]int{"types.ErrorInvalidCollateralizationRatio": 9}},
 	{pkg: "x/market/keeper", recv: "Keeper", fn: "CalcAssetPrice", coq: "gen_market_CalcAssetPrice",
 		reads: []string{"GetAsset", "GetTwa"},
-		errs: map[string]int{"assetTypes.ErrorAssetDoesNotExist": 3, "types.ErrorPriceNotActive": 10}},
+		errs:  map[string]int{"assetTypes.ErrorAssetDoesNotExist": 3, "types.ErrorPriceNotActive": 10}},
 	// x/liquidity/amm/util.go (C05).  reads = getters of the amm.Order interface = inputs
 	{pkg: "x/liquidity/amm", fn: "MatchableAmount", coq: "gen_amm_MatchableAmount",
 		reads: []string{"GetDirection", "GetOfferCoinAmount", "GetPaidOfferCoinAmount", "GetOpenAmount"}},
